@@ -86,6 +86,40 @@ static void one_case(uint64_t N, uint64_t nrows, uint64_t ncols, uint64_t a_size
         for (uint64_t i = 0; i < N; i++) zvec_limb(&A, l)[i] = (int64_t)((rng_u64(r) & 1) ? 1 : -1) * (int64_t)(1 + (rng_u64(r) & 1)) * ((int64_t)1 << 32);
     cnt("scaled_input_limbs_cases", 1);
   }
+  // output columns of very different magnitude: column 0 tiny, column 1 with every term of its top coefficient aligned (all entries
+  // +mmax, all inputs +amax: coefficient N-1 of the product is rows * N * amax * mmax, just below the budget) - a decision taken from
+  // the first column or the first limb must not be applied to the others
+  if (magn && ncols >= 2 && (rng_u64(r) & 1)) {
+    const int beyond = (int)(rng_u64(r) & 1);
+    for (uint64_t row = 0; row < nrows; row++)
+      for (uint64_t i = 0; i < N; i++) {
+        mat[(row * ncols + 0) * N + i] = (int64_t)(rng_u64(r) % 3) - 1;
+        // (half of these cases go 2^5 beyond the exact regime: coefficients around 2^55, which the conversion to integers must still
+        // handle - the comparison below uses the error budget E of the actual operands)
+        mat[(row * ncols + 1) * N + i] = beyond && mmax < ((int64_t)1 << 40) ? mmax << 5 : mmax;
+      }
+    for (uint64_t l = 0; l < a_size; l++)
+      for (uint64_t i = 0; i < N; i++) zvec_limb(&A, l)[i] = amax;
+    cnt("lopsided_column_magnitude_cases", 1);
+  }
+  // rep >= 6000: every input row anti-symmetric (a[k] = -a[N-k]: real spectrum), every matrix entry symmetric with M[0] = 0 (imaginary
+  // spectrum), dense and large (22-bit by 30-bit): products whose spectra live in one half of the complex plane
+  if (rep >= 6000 && N >= 4) {
+    for (uint64_t l = 0; l < a_size; l++) {
+      int64_t* al = zvec_limb(&A, l);
+      for (uint64_t i = 0; i <= N / 2; i++) al[i] = rng_sbits(r, 22);
+      al[0] = 0;
+      al[N / 2] = 0;
+      for (uint64_t i = 1; i < N / 2; i++) al[N - i] = -al[i];
+    }
+    for (uint64_t e = 0; e < nrows * ncols; e++) {
+      int64_t* me = mat + e * N;
+      for (uint64_t i = 0; i <= N / 2; i++) me[i] = rng_sbits(r, rep & 1 ? 30 : 12);
+      me[0] = 0;
+      for (uint64_t i = 1; i < N / 2; i++) me[N - i] = me[i];
+    }
+    cnt("spectral_symmetry_cases", 1);
+  }
   snap_t sm, sa, sp;
   snap_take(&sm, mat, nrows * ncols * N * 8);
   zvec_snap(&sa, &A);
@@ -316,6 +350,13 @@ void run_C02(void) {
           static const uint64_t LN[] = {4, 16, 64};
           one_case(LN[ni], SH[q][0], SH[q][1], SH[q][2], SH[q][3], (unsigned)q % 3, native, 0, 5000);
         }
+  }
+  // operands with symmetric / anti-symmetric coefficient vectors (purely real and purely imaginary spectra), both apply entry points
+  {
+    static const uint64_t YN[] = {16, 64, 256, 8};
+    for (size_t ni = 0; ni < ARRAY_LEN(YN); ni++)
+      for (int native = 1; native >= 0; native--)
+        for (unsigned q = 0; q < (th ? 12u : 4u); q++) one_case(YN[ni], 1 + q % 3, 1 + (q / 2) % 3, 1 + q % 3, 1 + (q / 2) % 3, q % 3, native, 0, 6000 + q);
   }
   // every row count 1..320 (no value of a size parameter is special to the property; blocked loops have their own ideas)
   for (uint64_t nrows = 1; nrows <= 320; nrows++) {
